@@ -25,6 +25,22 @@ type c17Ledger struct {
 	redeemed map[string]uint64
 	melts    map[string]*c17Melt // quote id -> inputs
 	feesPaid map[string]uint64
+	// mintFee returns the fee the mint at host charges for inputs of these keysets
+	mintFee  func(host string, ids []string) uint64
+	overpaid []string // swaps whose outputs were worth less than inputs minus the mint's fee
+}
+
+func inputIds(v any) []string {
+	var ids []string
+	if a, ok := v.([]any); ok {
+		for _, e := range a {
+			if m, ok := e.(map[string]any); ok {
+				id, _ := m["id"].(string)
+				ids = append(ids, id)
+			}
+		}
+	}
+	return ids
 }
 
 type c17Melt struct {
@@ -73,6 +89,11 @@ func (l *c17Ledger) feed(rec *inproc.Record) {
 		if in > out {
 			l.feesPaid[rec.Host] += in - out
 		}
+		if l.mintFee != nil {
+			if fee := l.mintFee(rec.Host, inputIds(parseObj(rec.ReqBody)["inputs"])); in > out+fee {
+				l.overpaid = append(l.overpaid, fmt.Sprintf("swap #%d at %s: inputs %d, mint fee %d, outputs signed %d: %d sat given away", rec.Seq, rec.Host, in, fee, out, in-out-fee))
+			}
+		}
 	case rec.Method == "POST" && rec.Path == "/v1/melt/bolt11":
 		req, resp := parseObj(rec.ReqBody), parseObj(rec.RespBody)
 		q, _ := req["quote"].(string)
@@ -104,7 +125,7 @@ type c17Wallet struct {
 func runC17(r *core.Run) {
 	r.Rule("world histories (2-3 real wallets, 1-2 real mints, input_fee_ppk in {0,100,1000}, rotation mid-history) over mint / send (with and without fees) / receive (same mint, untrusted mint with swap-to-trusted) / P2PK and HTLC send+receive / melt with Lightning success, failure, pending then resolved / reclaim / remove-spent / mint-swap with each Lightning outcome / wallet restart; after every operation: (i) reported balance = value of the stored spendable proofs, all UNSPENT at their mint (read-only view of the mint's tables), per-mint balances add up; (ii) pending balance = value of plain proofs handed out and not yet reconciled + inputs locked in unresolved melts (model kept from the operations issued and the store proxy); (iii) no secret is spendable in two places (stores of all wallets and tokens held by the harness); (iv) no loss: per mint, outstanding ecash computed from the transport record (signed - redeemed) equals the value of the not-SPENT proofs in stores, pending sets and held tokens; non-trivial = distinct (history, operation index) evaluation points after an operation that moved value")
 	r.Assume("operations are issued one at a time; P2PK/HTLC-locked proofs handed out are accepted either counted or not counted as pending")
-	nh, nops := pick(r, 6, 48), pick(r, 50, 150)
+	nh, nops := pick(r, 12, 48), pick(r, 80, 150)
 	core.Parallel(nh, 8, func(h int) {
 		sig := fmt.Sprintf("h%d", h)
 		if !r.Want(sig) {
@@ -138,6 +159,24 @@ func runC17(r *core.Run) {
 		cfg := wworld.FullCfg()
 		cfg.Fees = []uint{0, 100, 1000}
 		led := &c17Ledger{signed: map[string]uint64{}, redeemed: map[string]uint64{}, melts: map[string]*c17Melt{}, feesPaid: map[string]uint64{}}
+		led.mintFee = func(host string, ids []string) uint64 {
+			for _, m := range w.Mints {
+				if m.Host != host {
+					continue
+				}
+				m.Env.RefreshKeysets()
+				var ppk uint64
+				for _, id := range ids {
+					ks := m.Env.Keysets[id]
+					if ks == nil {
+						return 1 << 62 // unknown keyset: no verdict
+					}
+					ppk += uint64(ks.Fee)
+				}
+				return (ppk + 999) / 1000
+			}
+			return 1 << 62
+		}
 		cursor := 0
 		lastMoved := ""
 		broken := map[string]bool{}
@@ -190,6 +229,10 @@ func runC17(r *core.Run) {
 				led.feed(rec)
 			}
 			w.Rec.Forget(cursor)
+			if len(led.overpaid) > 0 {
+				r.Violate("no-loss:swap-pays-more-than-the-mint-fee:after-"+op, "a swap request asked for outputs worth less than its inputs minus the mint's fee; the difference is in no wallet, no token, no melt and is not a mint fee: "+led.overpaid[0], csig, s.Tail(8))
+				led.overpaid = nil
+			}
 			// ---- model updates from the operation's specification
 			if wn != nil {
 				md := models[wn]
@@ -449,8 +492,22 @@ func runC17(r *core.Run) {
 				}
 			}
 		}
+		if len(w.Mints) == 2 {
+			// directed: a 1-sat P2PK SIG_ALL token of the mint the receiver does not trust, received
+			// with swap-to-trusted (the listed finding: the second step cannot succeed for so small
+			// an amount and the proofs of the first step are dropped)
+			a, b := w.Wallets[0], w.Wallets[1]
+			if s.OpFund(a, 16, w.Mints[0].URL) == nil {
+				if ht, err := s.OpSendP2PKFlag(a, b, 1, w.Mints[0].URL, false, true); err == nil && ht != nil {
+					s.OpReceive(b, ht, true)
+				}
+			}
+		}
 		for i := 0; i < nops && r.Violations() < 10; i++ {
 			s.RandomOp(cfg)
+			if i == nops/2 && r.Violations() < 10 {
+				s.Directed() // floor: every kind of operation, and the hanging-melt-with-a-token-out pattern, once per history
+			}
 		}
 		r.Count("operations", int64(s.NOps))
 		for k, v := range s.Stats {
